@@ -5,6 +5,9 @@ package props
 // types are consistent; parity is the RS code of the group; nonces are fresh.
 
 import (
+	"fmt"
+	"io"
+	"os"
 	"testing"
 	"verif/harness/wire"
 
@@ -17,7 +20,13 @@ import (
 func TestC09Session(t *testing.T) {
 	rec := hx.NewRecorder(t)
 	rapid.Check(t, func(rt *rapid.T) {
-		cfg := drawPairCfg(rt, pairGenOpts{})
+		// a third of the cases transmit through the batch path of a real UDP socket
+		// (sendmmsg), whose legal results include "took only the first k messages"
+		batchSeed := uint64(0)
+		if rapid.IntRange(0, 2).Draw(rt, "batchTx") == 0 {
+			batchSeed = rapid.Uint64Range(1, 1<<62).Draw(rt, "batchSeed")
+		}
+		cfg := drawPairCfg(rt, pairGenOpts{ForceDialed: batchSeed != 0})
 		if rapid.Bool().Draw(rt, "defaultEntropy") {
 			cfg.EntropySeed = 0
 		}
@@ -28,6 +37,7 @@ func TestC09Session(t *testing.T) {
 			nOOB = rapid.IntRange(0, 6).Draw(rt, "nOOB")
 		}
 		var obs [2]*wireObserver
+		shortBatches := 0
 		rapid.SyncTest(rt, func(rt *rapid.T) {
 			s := sim.NewSessSim(cfg.ClockOff, cfg.EntropySeed)
 			p, err := sim.NewPair(s, cfg, app)
@@ -35,6 +45,27 @@ func TestC09Session(t *testing.T) {
 				rt.Fatalf("setup: %v", err)
 			}
 			setPairLinks(s, p, fs)
+			if batchSeed != 0 {
+				s.Quiesce() // the receive loops have started (and chosen the portable path) by now
+				for e := 0; e < 2; e++ {
+					e := e
+					var calls uint64
+					p.Sess[e].VerifSetBatchWriter(func(dgs [][]byte) (int, error) {
+						calls++
+						k := 1 + int(hx.Hash64(batchSeed, e, calls)%uint64(len(dgs)))
+						if hx.Hash64(batchSeed, e, calls, "all")%3 == 0 {
+							k = len(dgs)
+						}
+						if k < len(dgs) {
+							shortBatches++
+						}
+						for _, b := range dgs[:k] {
+							p.Conn[e].WriteTo(b, p.Addr[1-e])
+						}
+						return k, nil
+					})
+				}
+			}
 			for e := 0; e < 2; e++ {
 				e := e
 				obs[e] = newWireObserver(p.Crypto, cfg.FEC[e], cfg.Conv, cfg.StreamID[e], cfg.Opts[e].Stream)
@@ -62,6 +93,11 @@ func TestC09Session(t *testing.T) {
 			}
 			err = p.Run(fs.EndTime()+600_000, false)
 			p.Finish(nil)
+			if os.Getenv("VERIF_TRACE") != "" {
+				for _, g := range sim.BubbleGoroutines() {
+					fmt.Println("LEFT:", g)
+				}
+			}
 			if err != nil {
 				rt.Fatalf("C09: %v\ncase: %+v", err, describePair(cfg, fs, app))
 			}
@@ -94,6 +130,9 @@ func TestC09Session(t *testing.T) {
 		if cfg.EntropySeed == 0 {
 			cl = append(cl, "library_entropy")
 		}
+		if shortBatches > 0 {
+			cl = append(cl, "batch_transmit_with_short_writes")
+		}
 		rec.Add("n_datagrams_decoded", int64(tot(func(o *wireObserver) int { return o.Datagrams })))
 		rec.Add("n_fec_groups_recomputed", int64(grp))
 		nontrivial := retr > 0 && multi > 0 && (cfg.FEC[0][0] == 0 || par > 0)
@@ -115,10 +154,15 @@ var _ = kcp.IKCP_OVERHEAD
 func TestC09Entropy(t *testing.T) {
 	rec := hx.NewRecorder(t)
 	n := hx.EnvInt("C09_ENTROPY_DRAWS", 1<<18)
-	for name, src := range map[string]interface{ Read([]byte) (int, error) }{"aes": kcp.NewEntropyAES(), "chacha8": kcp.NewEntropyChacha8(), "default": kcp.NewEntropy()} {
+	for name, src := range map[string]io.Reader{"aes": kcp.NewEntropyAES(), "chacha8": kcp.NewEntropyChacha8(), "default": kcp.NewEntropy()} {
 		seen := make(map[[16]byte]struct{}, n)
 		var b [16]byte
+		// the source re-seeds itself once in 2^24 draws: a third of the way
+		// through, it is placed just before that moment
 		for i := 0; i < n; i++ {
+			if i == n/3 {
+				kcp.VerifEntropySetCount(src, kcp.VerifReseedInterval-5)
+			}
 			if k, err := src.Read(b[:]); err != nil || k != 16 {
 				t.Fatalf("entropy %s: Read returned %d, %v", name, k, err)
 			}
